@@ -1,16 +1,17 @@
 CONSTANTS
   W = 1
-  Limit = 2
+  Limit = 1
   L = 1
   Uds = {}
-  MaxConns = 4
-  MaxFaults = 1
-  MaxCmds = 0
-  MaxErrs = 0
+  MaxConns = 2
+  MaxFaults = 0
+  MaxCmds = 3
+  MaxErrs = 1
   MaxBare = 0
   WakeAt = 2
-  IgnoreUnknownIdx = FALSE
+  IgnoreUnknownIdx = TRUE
   UnlinkOnDeregister = FALSE
+  ResumeClearsBackoff = FALSE
   IncBeforeSend = FALSE
   NoClearOnLimit = FALSE
   ResumeSkipsAcceptAll = FALSE
@@ -21,5 +22,5 @@ CONSTANTS
   PauseKeepsRegistered = FALSE
 SPECIFICATION Spec
 VIEW View
-INVARIANTS C08_NoPanic
+PROPERTIES Steps
 CHECK_DEADLOCK FALSE
